@@ -72,16 +72,21 @@ def failEffect (d : Disk) (wf : WriteFail) : Act → Disk
     | .whole => applyF d (.write id es sealing)
   | _ => d
 
-/-- perform `as` in order; `k = some n`: the n-th action from here fails.  A failing Delete is ignored.
-    Result: the disk, the action that failed (if any, other than a Delete), the fault index left for what follows. -/
-def runActs (d : Disk) (wf : WriteFail) : List Act → Option Nat → Disk × Option Act × Option Nat
-  | [], k => (d, none, k)
-  | a :: as, none => runActs (applyF d a) wf as none
-  | a :: as, some (n + 1) => runActs (applyF d a) wf as (some n)
-  | a :: as, some 0 =>
+/-- the fault plan of a call: for each I/O action the call gets to, in order, whether it fails (`some wf`; `wf` says what a
+    failing pwrite leaves behind) — actions beyond the end of the plan succeed -/
+abbrev Plan := List (Option WriteFail)
+
+/-- perform `as` in order under the plan.  A failing Delete is ignored (and the plan goes on).  Any other failing action
+    ends this list of actions.  Result: the disk, the action that failed (if any, other than a Delete), the rest of the plan
+    (for what the call still does afterwards). -/
+def runActs (d : Disk) : List Act → Plan → Disk × Option Act × Plan
+  | [], pl => (d, none, pl)
+  | a :: as, [] => runActs (applyF d a) as []
+  | a :: as, none :: pl => runActs (applyF d a) as pl
+  | a :: as, some wf :: pl =>
     match a with
-    | .delete _ => runActs d wf as none
-    | _ => (failEffect d wf a, some a, none)
+    | .delete _ => runActs d as pl
+    | _ => (failEffect d wf a, some a, pl)
 
 def isCreate : Act → Bool
   | .create _ _ => true
@@ -99,18 +104,19 @@ def delTailActs (v : Disk) (newMax : Nat) : List Act :=
     let t' := { t with sealed := true, max := newMax }
     force ++ newTailActs v.md (setSeg kept t') (newMax + 1) ++ dropped.map (fun s => .delete s.id)
 
-/-- one API call with (at most) one failing I/O action: the process afterwards, and whether the call returned nil -/
-def runOp (p : Proc) (op : Op) (k : Option Nat) (wf : WriteFail) : Proc × Bool :=
+/-- one API call under a fault plan (any number of its I/O actions may fail): the process afterwards, and whether the
+    call returned nil -/
+def runOp (p : Proc) (op : Op) (pl : Plan) : Proc × Bool :=
   match op with
   | .set key val =>
     -- the stable store does not go through the WAL's state: it works in a stopped process too
-    let (d1, f, _) := runActs p.disk wf [.commit { p.disk.md with stable := upsert p.disk.md.stable key val }] k
+    let (d1, f, _) := runActs p.disk [.commit { p.disk.md with stable := upsert p.disk.md.stable key val }] pl
     ({ p with disk := d1 }, f.isNone)
   | .store first es seals =>
     if p.frozen.isSome then (p, false) else
     let v := vdisk p.disk
     let (a1, del) := resetActs v first
-    let (d1, f1, k1) := runActs p.disk wf a1 k
+    let (d1, f1, k1) := runActs p.disk a1 pl
     match f1 with
     | some a => if isCreate a then ({ disk := d1, frozen := some p.disk.md.segs }, false) else ({ disk := d1 }, false)
     | none =>
@@ -120,12 +126,12 @@ def runOp (p : Proc) (op : Op) (k : Option Nat) (wf : WriteFail) : Proc × Bool 
       | some t =>
         if tailSealedMem v1 then ({ disk := d1 }, false)            -- Append: ErrSealed, no I/O
         else
-          let (d2, f2, k2) := runActs d1 wf [.write t.id es seals, .fsync t.id] k1
-          let (d3, _, k3) := runActs d2 wf del k2                    -- StoreLogs releases the replaced state
+          let (d2, f2, k2) := runActs d1 [.write t.id es seals, .fsync t.id] k1
+          let (d3, _, k3) := runActs d2 del k2                    -- StoreLogs releases the replaced state
           if f2.isSome then ({ disk := d3 }, false)
           else if seals then
             -- the call has returned nil; the rotation runs in the background
-            let (d4, f4, _) := runActs d3 wf (rotateActs (vdisk d3)) k3
+            let (d4, f4, _) := runActs d3 (rotateActs (vdisk d3)) k3
             match f4 with
             | some a => if isCreate a then ({ disk := d4, frozen := some d3.md.segs }, true) else ({ disk := d4 }, true)
             | none => ({ disk := d4 }, true)
@@ -133,14 +139,14 @@ def runOp (p : Proc) (op : Op) (k : Option Nat) (wf : WriteFail) : Proc × Bool 
   | .delHead newMin =>
     if p.frozen.isSome then (p, false) else
     let as := (delHeadProg (vdisk p.disk) newMin).filter (· != .ack)
-    let (d1, f, _) := runActs p.disk wf as k
+    let (d1, f, _) := runActs p.disk as pl
     match f with
     | some a => if isCreate a then ({ disk := d1, frozen := some p.disk.md.segs }, false) else ({ disk := d1 }, false)
     | none => ({ disk := d1 }, true)
   | .delTail newMax =>
     if p.frozen.isSome then (p, false) else
     let as := delTailActs (vdisk p.disk) newMax
-    let (d1, f, _) := runActs p.disk wf as k
+    let (d1, f, _) := runActs p.disk as pl
     match f with
     | some a => if isCreate a then ({ disk := d1, frozen := some p.disk.md.segs }, false) else ({ disk := d1 }, false)
     | none => ({ disk := d1 }, true)
